@@ -954,7 +954,8 @@ theorem join_example :
 * "blocking on joins, channels and locks … made directly or through higher-order library procedures": a blocked
   thread is `inSafe prim` in the model, i.e. it IS published; that every call path of a blocking built-in
   publishes the thread is the regenerated table `blocking_paths_publish`, which is FALSE for the paths in
-  `knownUnpublished` (K16b): a thread blocked on one of those paths is not covered by any theorem.
+  `openK16b` (K16b, while it is open): a thread blocked on one of those paths is not covered by any theorem; with the
+  proposed repair (every such arm goes through `call_builtin_published`) the list is empty and `blocking_paths_publish_full` holds.
 * "with native code generation on or off": the model has one dispatch loop; JIT call paths appear only in the
   call-path table.
 * Thread exit (`steel_rc::with_explicit_merge`, removal from `threads`): `done` threads stay in the list and
